@@ -209,6 +209,28 @@ def assign_chain(n, pfx):
     return Piece(pfx, "\n".join(L))
 
 
+@family("state_squaring")
+def state_squaring(n, pfx):
+    """z0 has two reaching constants (one if); a chain of n statements z_i = z_(i-1) + z_(i-1) then combines
+    every pair of abstract values of its operands"""
+    L = ["def %sentry(p):" % pfx, "    z0 = \"a\"", "    if p:", "        z0 = \"b\""]
+    for i in range(1, n + 1):
+        L.append("    z%d = z%d + z%d" % (i, i - 1, i - 1))
+    L += ["    r = p", "    sink(r)", "    sink(z%d)" % n, "    return r", ""]
+    return Piece(pfx, "\n".join(L))
+
+
+@family("state_squaring_call")
+def state_squaring_call(n, pfx):
+    """the same chain through a two-parameter function: z_i = join(z_(i-1), z_(i-1))"""
+    L = ["def %sjoin(a, b):" % pfx, "    c = a + b", "    return c", "",
+         "def %sentry(p):" % pfx, "    z0 = \"a\"", "    if p:", "        z0 = \"b\""]
+    for i in range(1, n + 1):
+        L.append("    z%d = %sjoin(z%d, z%d)" % (i, pfx, i - 1, i - 1))
+    L += ["    r = p", "    sink(r)", "    sink(z%d)" % n, "    return r", ""]
+    return Piece(pfx, "\n".join(L))
+
+
 # ---- hostile literal constants ------------------------------------------------------------------
 
 _HOSTILE_UNITS = [
